@@ -3,7 +3,9 @@ package main
 // C20: Protobuf wire codec.  dynamicgo's protowire/binary vs the reference protowire.
 
 import (
+	"bytes"
 	"fmt"
+	"google.golang.org/protobuf/types/dynamicpb"
 	"math"
 	"math/rand"
 	"reflect"
@@ -691,6 +693,9 @@ func (c *c20) run(seed int64, n int, maxLen int) {
 			}
 		}
 	})
+	// length prefixes written speculatively (nested message bodies, map entries, packed lists) at the sizes where the
+	// prefix grows by a byte: 127 / 128 and 16383 / 16384
+	step(func() { c.lengthBoundaries() })
 	// descriptor-driven writer/reader on random schemas and reference messages
 	for i := 0; i < n/4+5; i++ {
 		i := i
@@ -708,6 +713,70 @@ func (c *c20) run(seed int64, n int, maxLen int) {
 				}
 			}
 		})
+	}
+}
+
+func (c *c20) lengthBoundaries() {
+	env, err := newPbEnv(PSchema{Root: "Root", Msgs: map[string][]PField{"Root": {
+		{Num: 1, Name: "sub", Kind: "message", Msg: "Root", Card: "one"},
+		{Num: 2, Name: "pad", Kind: "bytes", Card: "one"},
+		{Num: 3, Name: "pk", Kind: "fixed32", Card: "rep", Packed: true},
+		{Num: 4, Name: "mp", Kind: "bytes", Card: "map", KKind: "string"},
+		{Num: 5, Name: "subs", Kind: "message", Msg: "Root", Card: "rep"}}}})
+	if err != nil {
+		die("length-boundary schema: %v", err)
+	}
+	fd := func(name string) protoreflect.FieldDescriptor {
+		return env.rroot.Fields().ByName(protoreflect.Name(name))
+	}
+	varintLen := func(n int) int {
+		k := 1
+		for n >= 0x80 {
+			n >>= 7
+			k++
+		}
+		return k
+	}
+	// the payload length L of one bytes field (1-byte tag) that makes the enclosing body exactly target bytes long, given
+	// the bytes the body holds besides that field
+	padFor := func(target, other int) int {
+		for l := 0; l <= target; l++ {
+			if other+1+varintLen(l)+l == target {
+				return l
+			}
+		}
+		return -1
+	}
+	for _, target := range []int{126, 127, 128, 129, 16382, 16383, 16384, 16385, 16386} {
+		// nested message body of exactly target bytes
+		if l := padFor(target, 0); l >= 0 {
+			inner := dynamicpb.NewMessage(env.rroot)
+			inner.Set(fd("pad"), protoreflect.ValueOfBytes(bytes.Repeat([]byte{7}, l)))
+			m := dynamicpb.NewMessage(env.rroot)
+			m.Set(fd("sub"), protoreflect.ValueOfMessage(inner))
+			c.msg(env, m)
+			// ... and as the second element of a repeated message field
+			m2 := dynamicpb.NewMessage(env.rroot)
+			lst := m2.Mutable(fd("subs")).List()
+			lst.Append(protoreflect.ValueOfMessage(dynamicpb.NewMessage(env.rroot)))
+			lst.Append(protoreflect.ValueOfMessage(inner))
+			c.msg(env, m2)
+		}
+		// map entry of exactly target bytes: key "k" (3 bytes with tag and length) + value
+		if l := padFor(target, 3); l >= 0 {
+			m := dynamicpb.NewMessage(env.rroot)
+			m.Mutable(fd("mp")).Map().Set(protoreflect.ValueOfString("k").MapKey(), protoreflect.ValueOfBytes(bytes.Repeat([]byte{9}, l)))
+			c.msg(env, m)
+		}
+		// packed list of exactly target bytes
+		if target%4 == 0 {
+			m := dynamicpb.NewMessage(env.rroot)
+			lst := m.Mutable(fd("pk")).List()
+			for k := 0; k < target/4; k++ {
+				lst.Append(protoreflect.ValueOfUint32(uint32(k)))
+			}
+			c.msg(env, m)
+		}
 	}
 }
 
